@@ -742,6 +742,8 @@ class FakeGCM:
                 raise TypeError("tag must be bytes or None")
             if len(tag) < min_tag_length:
                 raise ValueError("Authentication tag must be %d bytes or longer." % min_tag_length)
+            if len(tag) > 16:
+                raise ValueError("Authentication tag cannot be more than 16 bytes.")       # (probed on pyca/cryptography 50)
         self.iv, self.tag = initialization_vector, tag
 
 
